@@ -98,6 +98,9 @@ pub fn run_union(ctx: &mut Ctx) {
         };
         ctx.out.m("union", &s, &["selector", &sel.to_string()]);
         ctx.out.r("C15", "union", matches!(&rs, Ok(Ok(x)) if *x == sel) == (sel <= 127) && rs.is_ok(), &["selector_new", "selector", &sel.to_string()]);
+        if let Ok(us) = UnionSelector::new(sel) {
+            ctx.out.r("C15", "union", us == sel && !(us == sel.wrapping_add(1)), &["selector_eq_u8", "selector", &sel.to_string()]);
+        }
         for body in &bodies {
             let mut b = vec![sel];
             b.extend_from_slice(body);
@@ -143,10 +146,15 @@ fn regs_str(regs: &[Reg]) -> String {
 pub fn run_builder_case(regs: &[Reg], b: &[u8]) -> Result<Result<Vec<Vec<u8>>, DecodeError>, ()> {
     catch_unwind(AssertUnwindSafe(|| {
         let mut builder = SszDecoderBuilder::new(b);
-        for r in regs {
+        for (k, r) in regs.iter().enumerate() {
             match r {
                 Reg::Fixed(n) => builder.register_type_parameterized(true, *n)?,
-                Reg::Var => builder.register_type_parameterized(false, 4)?,
+                // the three public ways of registering a variable-size item
+                Reg::Var => match k % 3 {
+                    0 => builder.register_type_parameterized(false, 4)?,
+                    1 => builder.register_anonymous_variable_length_item()?,
+                    _ => builder.register_type::<Vec<u8>>()?,
+                },
             }
         }
         let mut decoder = builder.build()?;
